@@ -423,6 +423,12 @@ class DemoStorage(ConflictResolvingStorage):
             # Set first: if the changes storage refuses to begin, tpc_abort
             # must still recognize the transaction and release the locks.
             self._transaction = transaction
+            if not a and 'tid' not in k:
+                # The changes storage knows only its own transactions;
+                # make sure the new id is also later than the base's last.
+                last = self.lastTransaction()
+                if last != ZODB.utils.z64:
+                    k['tid'] = ZODB.utils.newTid(last)
             self.changes.tpc_begin(transaction, *a, **k)
             self._stored_oids = set()
             del self._resolved[:]
